@@ -119,7 +119,9 @@ int vs_inside(void);
 // Fail the n-th (0-based) parent-side call of function `fn` from now on:
 // realloc with ENOMEM; poll, waitpid, read and write with EINTR. (-1, -1) disarms.
 void vs_fail_nth(int fn, int n);
-unsigned vs_nth_fired(void);  // how many such failures have been delivered so far
+unsigned vs_nth_fired(void);
+// Shrink every pipe the library creates from now on to `bytes` (0: leave the default).
+void vs_pipe_capacity(int bytes);  // how many such failures have been delivered so far
 void vs_add_fault(struct vs_fault f);
 void vs_clear_faults(void);
 
